@@ -685,6 +685,29 @@ func rangeAtD(v ssa.Value, b *ssa.BasicBlock, ptrBits, depth int) ival {
 					if lr := lenRangeOf(x.Call.Args[0], ptrBits, 0); lr.hi != posInf {
 						r.meet(ival{lo: lr.lo, hi: lr.hi})
 					}
+					// len of a phi: the join, over the incoming edges, of what is
+					// known about the length of each incoming value at the end of
+					// its predecessor (constant strings have their own length)
+					if phi, ok := x.Call.Args[0].(*ssa.Phi); ok && depth < 3 {
+						j := ival{lo: posInf, hi: negInf}
+						blk := phi.Block()
+						for i, e := range phi.Edges {
+							if e == ssa.Value(phi) || i >= len(blk.Preds) {
+								j = fullRange()
+								break
+							}
+							er := lenAtEdge(e, blk.Preds[i], blk, ptrBits, depth)
+							if er.lo < j.lo {
+								j.lo = er.lo
+							}
+							if er.hi > j.hi {
+								j.hi = er.hi
+							}
+						}
+						if j.lo != posInf && j.lo <= j.hi {
+							r.meet(ival{lo: j.lo, hi: j.hi})
+						}
+					}
 				}
 			}
 		case *ssa.UnOp:
@@ -696,7 +719,17 @@ func rangeAtD(v ssa.Value, b *ssa.BasicBlock, ptrBits, depth int) ival {
 					}
 				}
 			}
+		case *ssa.Lookup:
+			// m[k] on a never-written package-level map literal of integer constants
+			if er, ok := mapTableRange(x); ok {
+				r.meet(er)
+			}
 		case *ssa.Extract:
+			if lk, ok := x.Tuple.(*ssa.Lookup); ok && x.Index == 0 {
+				if er, ok := mapTableRange(lk); ok {
+					r.meet(er)
+				}
+			}
 			// result of a call: contract table for the varint readers, summaries for repository functions
 			if cl, ok := x.Tuple.(*ssa.Call); ok {
 				if f := cl.Call.StaticCallee(); f != nil {
@@ -1542,4 +1575,68 @@ func returnRangeOK(fn *ssa.Function, idx, ei, ptrBits, depth int) (ival, bool) {
 	res := ival{lo: j.lo, hi: j.hi}
 	returnRangeMemo[key] = res
 	return res, res.lo != negInf || res.hi != posInf
+}
+
+// mapTableRange: the lookup reads a package-level map that is initialised by a
+// composite literal with integer constant values and is never written by
+// repository code: the result is one of those constants or zero (absent key).
+func mapTableRange(lk *ssa.Lookup) (ival, bool) {
+	u, ok := lk.X.(*ssa.UnOp)
+	if !ok || u.Op != token.MUL {
+		return fullRange(), false
+	}
+	g, ok := u.X.(*ssa.Global)
+	if !ok {
+		return fullRange(), false
+	}
+	mt, ok := g.Type().(*types.Pointer).Elem().Underlying().(*types.Map)
+	if !ok {
+		return fullRange(), false
+	}
+	if _, _, isInt := isIntegerType(mt.Elem()); !isInt {
+		return fullRange(), false
+	}
+	return mapLeafRange(g)
+}
+
+// lenAtEdge: an interval for len(v) at the end of block pred: the length of a
+// constant string, or what the guards of pred say about an SSA len(v) value.
+func lenAtEdge(v ssa.Value, pred, succ *ssa.BasicBlock, ptrBits, depth int) ival {
+	tr := typeRange(types.Typ[types.Int], ptrBits)
+	out := ival{lo: 0, hi: tr.hi}
+	if k, ok := v.(*ssa.Const); ok && k.Value != nil && k.Value.Kind() == constant.String {
+		n := int64(len(constant.StringVal(k.Value)))
+		return ival{lo: n, hi: n}
+	}
+	if v.Referrers() == nil {
+		return out
+	}
+	for _, r := range *v.Referrers() {
+		cl, ok := r.(*ssa.Call)
+		if !ok || len(cl.Call.Args) != 1 || cl.Call.Args[0] != v {
+			continue
+		}
+		if bi, ok := cl.Call.Value.(*ssa.Builtin); !ok || bi.Name() != "len" {
+			continue
+		}
+		// the len value must be available at the end of pred
+		if !(cl.Block() == pred || cl.Block().Dominates(pred)) {
+			continue
+		}
+		lr := rangeAtD(cl, pred, ptrBits, depth+2)
+		// the branch taken from pred into succ itself
+		if iff, ok := pred.Instrs[len(pred.Instrs)-1].(*ssa.If); ok && succ != nil && len(pred.Succs) == 2 && pred.Succs[0] != pred.Succs[1] {
+			applyCond(&lr, cl, iff.Cond, pred.Succs[0] == succ, ptrBits)
+		}
+		if lr.lo > out.lo {
+			out.lo = lr.lo
+		}
+		if lr.hi < out.hi {
+			out.hi = lr.hi
+		}
+		if lr.notZero && out.lo == 0 {
+			out.lo = 1
+		}
+	}
+	return out
 }
